@@ -48,7 +48,13 @@ RULE = ("(a) exhaustive: every string of length <=3 (quick) / <=4 (thorough) ove
         "different command-line value overrides the file; lists accumulate in order; an unknown key is warned about once, "
         "not applied, no abort; merged argument vector and per-option effect compared with the model. Non-trivial = the "
         "string contains a quote, a backslash or one of # ; = % [ ] newline tab (string streams) / the option is given in "
-        "the file and on the command line, or is an append option with >=2 values (option streams).")
+        "the file and on the command line, or is an append option with >=2 values (option streams). (c') unquoted INI values: a "
+        "grammar of value shapes ({…, [[…, dates, versions, 0x…, inf/nan, true…, lone quotes, trailing backslash, GitHub source "
+        "templates such as {mod_source_href}?plain=1#L{lineno}; ~1200 shapes) is scanned at run time with the installed toml "
+        "package; every shape on which toml.loads raises something else than TomlDecodeError (the corpus; its size and exception "
+        "classes are in evidence) plus a sample of the others is written unquoted for every string-typed option and the free-text "
+        "append options into setup.cfg and pydoctor.ini under each of the three section spellings, as first and as later key: "
+        "Options from the file == Options from `--opt=value`; an exception other than SystemExit is a failure.")
 ASSUMPTIONS = [
     "configargparse, configparser, toml and argparse are parameters of the model (DESIGN 4.4): their behaviour is "
     "transcribed (merge order, already_on_command_line, convert_item_to_command_line_arg, str.strip, "
@@ -65,6 +71,8 @@ ASSUMPTIONS = [
     "triple-quoted forms are written to INI files only when every line of the string survives configparser's "
     "continuation-line rules (no leading/trailing blanks per line, no blank line, no line starting with # or ;): a raw "
     "newline in an INI value is file syntax, not quoting",
+    "CompositeConfigParser hands every file to the toml package first; toml is a parameter whose failure modes (which texts "
+    "raise which exception class) are observed at run time, not modelled",
     "abbreviated long options and clustered short options (--proj, -vv) are not seen by configargparse's "
     "already_on_command_line; the model covers exact option strings; abbreviations are probed with the direct oracle only",
 ]
@@ -81,6 +89,7 @@ SIG_EMPTY3 = "ini-quoted-value:empty-triple"
 SIG_INI_AS_TOML = "pydoctor.ini-read-as-toml:quoted-value-differs"
 SIG_TOML_LIB = "toml-quoted-value:leading-escaped-quote"
 SIG_ABBREV = "cli-abbreviation:file-not-overridden"
+SIG_CRASH = "config-file:uncaught-exception"
 
 
 def compare(ctx: Ctx, stream: str, reqs, impls, pay=None) -> None:
@@ -1016,7 +1025,8 @@ def stream_options(ctx: Ctx, sc: Scratch) -> None:
     # -- unknown keys: warned once each, not applied, no abort
     for fname, header, fmt in FILES:
         for rep in range(6 if ctx.quick else 40):
-            uk = ctx.rng.choice(["nosuch", "project_name", "projectname", "Project-Name" if fmt == "toml" else "no-such-opt", "verbos", "html-outputs", "-project-name", "x.y"])
+            uk = ctx.rng.choice(["nosuch", "project_name", "projectname", "Project-Name" if fmt == "toml" else "no-such-opt", "verbos", "html-outputs", "-project-name", "x.y"]
+                                + ([] if fmt == "toml" else ["a.b", "a b", "'q", "k[0]", ".", "{k}", "1", "a..b"]))
             o = ctx.rng.choice([t for t in table if t["kind"] == "store" and not t["choices"] and t["type"] is None and t["flags"][0] not in CLASSES])
             v = ctx.rng.choice(["x", "val ue", "7"])
             before = ctx.rng.random() < 0.5
@@ -1100,12 +1110,138 @@ def stream_options(ctx: Ctx, sc: Scratch) -> None:
                          f"{fname} {abtext!r} + command line {cli} differs from the command line alone{diff_opts(rb, rc)}")
 
 
+# ------------------------------------------------------------------ stream (c'): unquoted INI values of every shape
+#
+# An INI file is first handed to the `toml` package (CompositeConfigParser tries TOML, then INI).  That package is
+# sloppy: on many texts that are not TOML it raises something else than TomlDecodeError (IndexError in its inline
+# table / array / key code, UnboundLocalError …).  pydoctor must still fall back to the INI parser.  The corpus of
+# such texts is found at run time by scanning a grammar of unquoted value shapes with the installed package.
+
+SHAPE_STARTS = ["{", "{a}", "{a}=", "{a}?b=1", "{=", "{a=", "{a=1", "{a=1}", "{}", "[", "[[", "[a", "[[a]", "[1,", '["a",', "['\\',",
+                "1a", "1-", "1:", "1.2.3", "2024-01-01T", "2024-01-01 x", "2024-01-01T10:00", "+", "-", "+1x", "-x", "0x", "0xZZ",
+                "0o9", "0b2", "inf", "infx", "+inf", "nan", "nanx", "true", "truex", "falsey", "'", '"', "'a", '"a', "a\\", "\\",
+                "9" * 40, "1e", "1e+", "1_", "_1", ".5", "5.", "1..2", "a.b", "a b", 'a"b', "a'b", "@", "*", "&", "!", "|", ">",
+                "=", "==", ",", "a,b", "()", "<x>", "$x", "~", "`", "'" * 3, '"' * 3, '"a" b', "'a' b", "1 2", "1=2", "x=y", "a # b"]
+SHAPE_SUFFIXES = ["", "x", "=1", "?plain=1#L{lineno}", " b", "}", "]", '"', "'", "\\", ".", ":", "-", "T", ",", " = "]
+SHAPE_EXTRA = ["{mod_source_href}?plain=1#L{lineno}", "{mod_source_href}#n{lineno}", "{mod_source_href}#L{lineno}",
+               "https://h/p?a=1&b={x}", "{a}={b}", "v1.2.3-rc1", "2024-01-01T10:00:00Z", "1979-05-27", "0x10", "1_000", "+inf", "true",
+               "True", "3.14", "C:\\dir\\", "a = b", "k: v", "~/x", "*.py", "$HOME", "a;b", "#frag", "[x", "x]", "(x)"]
+# several lines (one item per line): append options
+SHAPE_MULTILINE = ['[' + '"' * 3 + ']\n\'=' + '"' * 3, "['\\', \"z\"]\nx", "{a}=1\n{b}=2", "a\n{b}=", "{\n}", "[[\n]]x"]
+SECTION_SPELLINGS = ["[pydoctor]", "[tool.pydoctor]", "[tool:pydoctor]"]
+
+
+def toml_outcome(text: str) -> str:
+    """what the installed toml package makes of a file text: ok | TomlDecodeError | <other exception class>"""
+    import toml
+    try:
+        toml.loads(text)
+        return "ok"
+    except toml.TomlDecodeError:
+        return "TomlDecodeError"
+    except Exception as e:   # noqa: BLE001 - the class is the datum
+        return type(e).__name__
+
+
+def ini_plain_ok(v: str, multiline: bool = False) -> bool:
+    """an unquoted INI value that means itself (so that `--opt=v` is its command-line equivalent)"""
+    if not v or v != v.strip() or (v[0] == "[" and v[-1] == "]") or (v[0] in "\"'" and v[-1] == v[0] and len(v) >= 2):
+        return False
+    if "\n" in v:
+        return multiline and all(l and l == l.strip() and l[0] not in "#;" for l in v.split("\n"))
+    return True
+
+
+def scan_shapes() -> Tuple[List[str], List[str], Dict[str, int]]:
+    """(values on which toml raises something else than TomlDecodeError, the other values, exception class -> count)"""
+    vals = list(dict.fromkeys([a + b for a in SHAPE_STARTS for b in SHAPE_SUFFIXES] + SHAPE_EXTRA))
+    vals = [v for v in vals if ini_plain_ok(v)] + [v for v in SHAPE_MULTILINE if ini_plain_ok(v, True)]
+    bad: List[str] = []
+    rest: List[str] = []
+    classes: Dict[str, int] = {}
+    for v in vals:
+        outs = {toml_outcome(f"{h}\nproject-name = {ini_embed(v)}\n") for h in SECTION_SPELLINGS[:2]}
+        odd = sorted(o for o in outs if o not in ("ok", "TomlDecodeError"))
+        if odd:
+            bad.append(v)
+            for o in odd:
+                classes[o] = classes.get(o, 0) + 1
+        else:
+            rest.append(v)
+    return bad, rest, classes
+
+
+def stream_unquoted_ini(ctx: Ctx, sc: Scratch) -> None:
+    table = live_table()
+    bad, rest, classes = scan_shapes()
+    strs = [o for o in table if o["kind"] == "store" and not o["choices"] and o["type"] is None and o["flags"][0] not in CLASSES]
+    apps = [o for o in table if o["kind"] == "append" and o["flags"][0] in ("--intersphinx", "--html-subject")]
+    ctx.rng.shuffle(rest)
+    singles = [v for v in bad if "\n" not in v]
+    multis = [v for v in bad + rest if "\n" in v]
+    if ctx.quick:
+        singles = singles[::max(1, len(singles) // 30)]
+        others = [v for v in rest if "\n" not in v][:15]
+    else:
+        others = [v for v in rest if "\n" not in v][:150]
+    must = [v for v in SHAPE_EXTRA[:3] if v not in singles]
+    combos = [(f, h, pos) for f in ("setup.cfg", "pydoctor.ini") for h in SECTION_SPELLINGS for pos in ("first", "later")]
+    info: Dict[str, Any] = {
+        "shapes_scanned": len(bad) + len(rest), "values_where_toml_raises_non_TomlDecodeError": len(bad),
+        "distinct_exception_types": len(classes), "exception_types": classes, "used_single_line": len(singles) + len(must) + len(others),
+        "used_multi_line": len(multis), "string_options": len(strs), "append_options": len(apps)}
+    ctx.extra["unquoted_ini_corpus"] = info
+    n_odd_files = 0
+    k = 0
+    cli_cache: Dict[Tuple[str, str], Dict[str, Any]] = {}
+    for o in strs + apps:
+        long = o["flags"][0]
+        vals = [(v, False) for v in must + singles + others] + ([(v, True) for v in multis] if o["kind"] == "append" else [])
+        for v, ml in vals:
+            mine = combos if (not ctx.quick and v in bad) or v in must else [combos[k % len(combos)]]
+            k += 1
+            for fname, header, pos in mine:
+                # (several lines: the first item on the key's line or on its own line — the same value for configparser)
+                body = f"{o['key']} = " + ((("\n    " if k % 2 else "") + ini_embed(v)) if ml else v) + "\n"
+                text = header + "\n" + (body + "verbose = 1\n" if pos == "first" else "verbose = 1\nquiet = 0\n" + body)
+                cli = ["--verbose"] + ([f"{long}={l}" for l in v.split("\n")] if ml else [f"{long}={v}"])
+                tout = toml_outcome(text)
+                odd = tout not in ("ok", "TomlDecodeError")
+                n_odd_files += odd
+                sc.clear()
+                sc.write(fname, text)
+                rf = sc.run([])
+                key = (long, v)
+                if key not in cli_cache:
+                    sc.clear()
+                    cli_cache[key] = sc.run(cli)
+                rc = cli_cache[key]
+                ctx.case(f"unquoted {fname} {header} {pos} {long} {enc(v)}", nontrivial_str(v),
+                         {"file": fname, "text": text, "cli": cli, "toml.loads": tout, "outcome": short(rf)}
+                         if odd and len(ctx.samples) < 6 and k % 7 == 0 else None)
+                ctx.count("unquoted-ini:toml-" + ("raises-" + tout if odd else tout))
+                ctx.count(f"unquoted-ini:{fname}:{header}:{pos}")
+                if outcome_key(rf) == outcome_key(rc):
+                    continue
+                inp = {"option": long, "value": v, "file": fname, "mode": "eq", "text": text, "cli": cli}
+                if rf["kind"] == "raise" and rc["kind"] == "ok":
+                    ctx.fail(SIG_CRASH, inp, f"{fname} {text!r}: Options.from_args raised {rf['cls']}: {rf['msg']} (toml.loads: {tout}); "
+                                             f"the command line {cli} is accepted")
+                else:
+                    ctx.fail(classify_option_failure(fname, "ini", text, v.split("\n"), "unquoted-ini:file-ne-cli"), inp,
+                             f"{long}: {fname} {text!r} -> {short(rf)}{diff_opts(rf, rc)}; command line {cli} -> {short(rc)}")
+    info["files_on_which_toml_raised_non_TomlDecodeError"] = n_odd_files
+    if not bad:
+        ctx.notes.append("the installed toml package raised nothing but TomlDecodeError on the shape grammar: the unquoted-INI stream "
+                         "exercises the fall-back to the INI parser only through TomlDecodeError")
+
+
 def classify_option_failure(fname: str, fmt: str, text: str, values: Sequence[str], default: str) -> str:
     """coarse cause of a file/command-line divergence in the option streams"""
     from pydoctor.options import PydoctorConfigParser
     if fmt == "ini" and percent_cause(text, values):
         return SIG_PERCENT
-    if fname == "pydoctor.ini":
+    if fmt == "ini":
         try:
             composite: Any = dict(PydoctorConfigParser.parse(_named(io.StringIO(text), fname)))
         except Exception as e:
@@ -1170,6 +1306,7 @@ def run(ctx: Ctx) -> None:
         try:
             stream_string_files(ctx, sc)
             stream_options(ctx, sc)
+            stream_unquoted_ini(ctx, sc)
         finally:
             sc.close()
     ctx.exhaustive = True
